@@ -383,7 +383,7 @@ pub fn def() -> CheckDef {
         ],
         sections: vec![
             Box::new(EnumSection { name: "catalogue", rule: "bounded-exhaustive stores x questions", enumerate: enum_hist, check, exhaustive: true }),
-            Box::new(PropSection { name: "histories", rule: "random store histories", strategy: hist_strategy, cases: (60_000, 1_500_000), check }),
+            Box::new(PropSection { name: "histories", rule: "random store histories", strategy: hist_strategy, cases: (400_000, 4_000_000), check }),
         ],
     }
 }
